@@ -3,7 +3,7 @@ PID = "C05"
 LEAN_MODULE = "Hw.Props.C05"
 NS = "Hw.Props.C05."
 THEOREMS = [NS + t for t in """C05_unescape_escape C05_escape_charwise C05_escape_no_raw_markup C05_escape_amp_only_from_entities
-C05_escape_null_iff C05_base64_enc_length C05_base64_dec_writes_in_bounds C05_base64_alphabet C05_base64_roundtrip_partial
+C05_escape_null_iff C05_base64_enc_length C05_base64_dec_writes_in_bounds C05_base64_alphabet C05_base64_roundtrip C05_base64_encode C05_base64_encode_decode C05_base64_group C05_scan_render_attrs C05_next_attr_render
 C05_num_roundtrip_unsigned C05_num_roundtrip_signed C05_num_roundtrip_hex C05_set_attr_roundtrip
 C05_TopoEquiv_refl C05_TopoEquiv_symm C05_TopoEquiv_trans C05_TopoEquiv_fields C05_TopoEquiv_implies_tree_sets
 C05_sanitize_idem""".split()]
@@ -12,29 +12,24 @@ TRUSTED = [
     "PARTIAL: the object <-> attribute mapping of hwloc/topology-xml.c (3000 lines) and the libxml2 back end are exercised, not "
     "modelled: that export+import reproduces a whole topology is established on the generated topologies of each run (judged by the "
     "proved-equivalence relation TopoEquiv in the Lean driver), while the byte-level building blocks are proved",
-    "PARTIAL: base64 decode(encode bs) = bs is proved for the bit arithmetic of one group (C05_base64_roundtrip_partial), the alphabet "
-    "inversion, the encoded length and the decoder's write safety; the induction through the decoder state machine is checked "
-    "differentially only (every B64D case decodes the encoder's own output)",
     "the un-escaper model reads the original buffer (the C code copies in place; reads are always at or after the cell being written)",
     "harness/dump.h + the canonical X lines of harness/h_xmlrt.c as a faithful reading of both topologies through the public API",
     "libc strtoul/strtoull/atoi/sprintf are modelled (Hw.Base.Num, Hw.Io.Xml.atoi/printInt) and differential-tested (NUM cases)",
 ]
 ASSUMPTIONS = [
-    "attribute values are NUL-free byte strings; numbers printed with %u/%lu/%llu are below 2^64",
-    "names / subtypes / info strings are compared after hwloc__xml_export_safestrdup (documented: non-printable and non-ASCII characters "
-    "are silently dropped on export); distances names, which hwloc exports WITHOUT that filter, are generated from XML-valid characters "
-    "only (switch VERIF_XMLRT_RAW_DISTNAMES=1 shows the defect: the XML cannot be reloaded)",
-    "topology flags of the original are a subset of {INCLUDE_DISALLOWED, IMPORT_SUPPORT, DONT_CHANGE_BINDING} (NO_DISTANCES / NO_MEMATTRS / "
-    "NO_CPUKINDS would make the reload drop user-added attributes by design); memattr initiator cpusets are non-empty subsets of the "
-    "topology cpuset; plain userdata holds printable characters without XML markup",
-    "excluded input classes (named switches in tools/eng_xmlrt.py and harness/h_xmlrt.c, counted as KNOWN-FINDING lines): <support/> "
-    "section of the second export without IMPORT_SUPPORT; memory children whose sets differ from their parent's; stale gp_index "
-    "references (distances, memattr targets/initiators) after a Group replacement; v2 export of unnamed latency distances (importer "
-    "calls strcmp(NULL, ...)); originals that are not well-formed (object with a cpuset but NULL complete_cpuset) or hold duplicate "
-    "memattr initiators after restrict; a Group's depth attribute (not exported, recomputed by every load) is not compared",
-    "v2-format exports: only 'same tree and sets' is judged; distances are compared as a multiset",
-    "Groups with subtype \"Die\" or kind 104 (INTEL_DIE) are not generated: the importer's backward-compatibility rule turns them into Die "
-    "objects in every format version (switch VERIF_XMLRT_DIE_GROUPS=1); originals must pass hwloc_topology_check()",
+    "attribute values are NUL-free byte strings; attribute names are over [a-z_] (the scanner's strspn set; every name topology-xml.c "
+    "emits); numbers printed with %u/%lu/%llu are below 2^64; base64 bytes are below 256",
+    "names / subtypes / info strings / distances names are compared after hwloc__xml_export_safestrdup (documented: non-printable and "
+    "non-ASCII characters are silently dropped on export)",
+    "topology flags of the original are a subset of {INCLUDE_DISALLOWED, IMPORT_SUPPORT, DONT_CHANGE_BINDING} (reloading with NO_DISTANCES / "
+    "NO_MEMATTRS / NO_CPUKINDS drops those attributes by design); memattr initiator cpusets are non-empty subsets of the topology cpuset; "
+    "plain userdata holds printable characters without XML markup",
+    "known classes (known_findings.json): F56 <support/> section of the second export without IMPORT_SUPPORT (compared with those "
+    "elements removed); F55 memory children whose sets differ from their parent's (judged against the fixup_sets-normalised original); "
+    "F59 duplicate memattr initiators after restrict (not judged; VERIF_XMLRT_JUDGE_DUP_INITIATORS=1 judges them)",
+    "the original must pass hwloc_topology_check() and no modifying call of the history may abort: otherwise the case is a VIOLATION",
+    "v2-format exports: only 'same tree and sets' is judged, after the importer's documented v2 rule Group(subtype Die | kind 104) -> Die; "
+    "distances are compared as a multiset; a Group's depth attribute (not exported, recomputed by every load) is not compared",
 ]
 MODELLED = ("modelled: hwloc__nolibxml_export_escape_string, hwloc__nolibxml_import_next_attr (topology-xml-nolibxml.c 48-108, 547-587), "
             "hwloc_encode_to_base64 / hwloc_decode_from_base64 (base64.c), HWLOC_XML_CHAR_VALID / safestrdup, the printf/strto* pairs, "
